@@ -33,7 +33,8 @@ CONSTANTS MaxChanges,   \* longest schedule
 \* exhaustive exploration wanted, error injection possible (first window of a small text that parses)
 Wins == ndJsonDeserialize(IOEnv.TOKENS_FILE)
 
-Fillers == <<"", " ", "  ", "\t", "\n", "--c\n", "--c--", "/*c*/", "/*a/*b*/c*/", "/*c\nd*/", "\r\n">>
+Fillers == <<"", " ", "  ", "\t", "\n", "--c\n", "--c--", "/*c*/", "/*a/*b*/c*/", "/*c\nd*/", "\r\n",
+             "/*\f\"*/", "--\"\f\n">>      \* comment text is arbitrary: a form feed, a quotation mark
 AnySkip == 1..100000
 AllFillers == 1..Len(Fillers)
 
